@@ -165,7 +165,8 @@ class DateTimestampProvider(MorphingProvider):
                 if data is None:
                     raise TypeLoadError(Union[int, float], data)
 
-                return date.fromtimestamp(data)  # noqa: DTZ012
+                # dumper produces timestamp of midnight at UTC
+                return datetime.fromtimestamp(data, tz=timezone.utc).date()
             except TypeError:
                 raise TypeLoadError(Union[int, float], data)
             except ValueError:
@@ -178,7 +179,8 @@ class DateTimestampProvider(MorphingProvider):
 
         def pydate_timestamp_loader(data):
             try:
-                return date.fromtimestamp(data)  # noqa: DTZ012
+                # dumper produces timestamp of midnight at UTC
+                return datetime.fromtimestamp(data, tz=timezone.utc).date()
             except TypeError:
                 raise TypeLoadError(Union[int, float], data)
             except (OverflowError, OSError):  # OSError is raised on localtime() or gmtime() failure
